@@ -222,6 +222,12 @@ func validConfigs(thorough bool) []ValidCfg {
 			}
 		}
 	}
+	// an injected clock that runs 25 years behind the machine's
+	for _, gc := range []int{-1, 8} {
+		for _, auto := range []bool{false, true} {
+			out = append(out, ValidCfg{TTL: 2, GC: gc, Auto: auto, MaxAdvances: 5, MaxMacros: 1, PastClock: true})
+		}
+	}
 	// a TTL of 2^33 s (272 years: expiry instants lie beyond what UnixNano can represent), no big time steps
 	for _, gc := range []int{-1, 0} {
 		for _, auto := range []bool{false, true} {
@@ -278,6 +284,8 @@ func validCheck(prop, which string) *sqrun.Check {
 					}
 				} else if cfg.HugeTTL {
 					d = 5
+				} else if cfg.PastClock {
+					d = 6
 				} else if !c.Thorough {
 					if cfg.TTL == 3 {
 						d = depth - 2
